@@ -703,6 +703,10 @@ func runProperty(prop, tier string, seed uint64, runs int, mutate, scratch strin
 		trouble("fewer than 2 distinct non-trivial runs: the check explored nothing")
 	}
 	for k, n := range unrepro {
+		if merged[k] == nil && exit == 1 {
+			fmt.Printf("note: %q was also observed in %d run(s) of long-lived worker processes but not reproduced in a fresh process (a consequence of state the reported violation leaves behind)\n", k, n)
+			continue
+		}
 		if merged[k] == nil {
 			// seen only in long-lived worker processes, never reproducible in a fresh one: cannot be reported as a
 			// violation (no replay), must not be ignored either
